@@ -84,3 +84,24 @@ Proof.
   { rewrite Forall_forall in Hw. apply Hw. apply nth_In. exact Hi. }
   rewrite E. ring.
 Qed.
+
+(* the repaired variant (entries divided by the weights) IS the gradient, for all positive weights *)
+Lemma nth_vdiv (a b : list R) (i : nat) : (i < length a)%nat -> (i < length b)%nat ->
+  nth i (vdiv a b) 0 = nth i a 0 / nth i b 0.
+Proof.
+  unfold vdiv. revert b i; induction a as [|p a IH]; intros [|q b] [|i] Ha Hb; cbn in Ha, Hb; try lia;
+    cbn [vmap2 nth]; numR; [reflexivity|]. apply IH; lia.
+Qed.
+Lemma numgrad_length (w : list R) (e : Rexpr (wspace sqrt w)) m h x : length (numgrad sqrt w e m h x) = length w.
+Proof. unfold numgrad. rewrite map_length, seq_length. reflexivity. Qed.
+Lemma numgrad_repaired (w x : list R) (h : R) (i : nat) :
+  Forall (fun a => 0 < a) w -> length x = length w -> (i < length w)%nat -> h <> 0 ->
+  nth i (numgrad_v sqrt true w (FLeaf (leaf_l2sq (wspace sqrt w))) NGCentral h x) 0
+  = nth i (gradient (FLeaf (leaf_l2sq (wspace sqrt w))) x) 0.
+Proof.
+  intros Hw Hx Hi Hh. unfold numgrad_v.
+  rewrite nth_vdiv by (try rewrite numgrad_length; assumption).
+  rewrite numgrad_central_l2sq by assumption.
+  assert (Hp : 0 < nth i w 0) by (rewrite Forall_forall in Hw; apply Hw, nth_In, Hi).
+  field. lra.
+Qed.
